@@ -17,16 +17,31 @@ CHECKS = {
   note=TRUST + " std::collections::HashMap is assumed to meet its contract (only equal-hash candidates are compared with ==). Tuple identity shortcut (a NaN-containing tuple compared with itself) is outside the model.",
   technique="Lean 4 proof (hash/== coherence by induction on keys; refinement bucketed map -> association list) + op-sequence correspondence with an independent == oracle",
   ref="DESIGN.md section 5 C12"),
+ "C14": dict(
+  text="Lean 4 theorems on the module-registry model: body_at_most_once (every run starts each module body at most once), starts_le_paths/run_terminates (termination: body starts <= distinct paths, fuel suffices), same_object(_shared_writes), cycle_reported(_on_stack) (importing a module that is still loading - self-import, 2-cycles, longer cycles - is an ImportError and starts no body, state untouched), errors_are_values (missing/uncompilable: registry unchanged; failing body: delivered to the importing statement), globals_private(_no_leak), builtins_everywhere; quirks stated (failed_body_poisons_forever). Tie: import graphs over <=4 modules (random + enumerated over 3 modules) with top-level/aliased/in-function/repeated imports and missing, uncompilable and failing members against a reference of the import rules written independently; real import events replayed through the Lean registry model; 2 GC modes.",
+  note=TRUST + " Functions/fibers inside module bodies are outside the registry model; a stack overflow raised while entering a module body registers the module without running it (finding of the model work, noted).",
+  technique="Lean 4 proof (registry invariant by induction over fuelled execution) + enumerated import graphs with an independent reference + replay of real import events",
+  ref="DESIGN.md section 5 C14"),
  "C15": dict(
   text="Lean 4 theorems on the reuse model (the transient fields of Vm across runs): residue_fresh(_after_any_run) - whatever a previous run left behind (exception in flight, stale fiber stack/frames/handlers/pending return, class definition in progress) the next run's observable start state depends only on the persistent definitions; reset_eq_new; the unrepaired prologue/reset are shown to leak (F18, F29 witnesses); C09's execute_dual. Tie: the model's prologue/reset are re-read from the current source of Vm::execute/Vm::reset on every run; histories of snippets on one interpreter in dev and release builds: no panic, a failing snippet replaced by the definitions it completed must not change what later snippets print (13 kinds of failure), reset-then-continue equals new-then-continue (generated + directed), differential against the Lean reference interpreter.",
   note=TRUST + " The reuse model is a small transcription of execute()/reset(); 'piecewise equals whole' for arbitrary programs rests on the metamorphic histories and the reference interpreter (partial). A fiber suspended in the caller chain of an aborted run stays 'already called' (documented quirk).",
   technique="Lean 4 proof on the reuse state machine + source-anchored prologue check + metamorphic snippet histories on one interpreter (dev and release builds)",
   ref="DESIGN.md section 5 C15"),
+ "C18": dict(
+  text="Lean 4 theorems on the iterator models: range_iter_spec (for all bounds: exactly begin, begin+-1, ..., then stop forever; empty iff begin = end), tuple/vec/string_iter_spec, vec_iter_index_based (under arbitrary interleaved push/pop/set the k-th next returns the element at index k as it is at that call, or stop) and vec_mutation_never_panics, chain_spec / map_filter_collect_reduce_spec (the adapters of core.yl equal List.map/filter/foldl on the yielded list; sentinel_cuts states the early-sentinel behaviour), for_loop_spec, break_leaves_no_state, nested_loops_independent, loops_independent, iter_allocates_fresh. Tie: generated range / vector-with-mutation / adapter-chain requests answered by the model and by the implementation; 13 constructed-oracle scenarios (every iterable kind, break/continue/return at every position, shared iterators, user iterators, mutation during iteration) in 2 GC modes; differential against the Lean reference interpreter.",
+  note=TRUST + " The compiled shape of the for loop is tied by scenarios and the reference interpreter only. An instance of a user subclass of StopIter does not end a for loop but passes through map/filter unchanged (finding of the model work, documented).",
+  technique="Lean 4 proof (iterator step functions, adapters as list functions, loop semantics) + request correspondence + constructed-oracle scenarios",
+  ref="DESIGN.md section 5 C18"),
  "C16": dict(
   text="Lean 4 theorems on the pacing model (overshoot_le_one_alloc, thr_is_twice_survivors, no_unbounded_growth for every allocation history), on root counting (roots_exact) and on the collector model (collect_complete: nothing unreachable survives; sweep_bytes: exact byte accounting). Tie: every allocation event of real paced runs is replayed through the model and checked against the property's bound; leak detection by census metamorphics after forced collections.",
   note=TRUST + " usize overflow is not modelled; interned strings, chunks and functions are excluded by design.",
   technique="Lean 4 proof (invariants over allocation histories; tri-colour completeness) + replay of real allocator event streams + census metamorphics",
   ref="DESIGN.md section 5 C16"),
+ "C02": dict(
+  text="Lean 4 theorems that exclude the panic sites of the data-level code: no_fault (no indexing/slicing/string native can reach a Rust panic, for all arguments), unhashable_rejected_unchanged + stored_keys_hashable (the panicking hash arm is unreachable from the map), find_fuel_enough (the intern probe loop terminates), collect_terminates, verify_sound (in verified bytecode every operand access is in range, so the operand `expect`/index sites are unreachable), guard_free_equiv; and the panic-site inventory regenerated from the source: every unwrap/expect/panic!/index/unsafe site of the run-time files is paired with a lemma, the verifier, a ledger entry or 'dynamic only'. Tie: every method name x 57 receivers/arguments of every value kind x all argument tuples of arity 0-2, every operator x all operand pairs, 18 further construct sweeps, resource-limit and ill-typed generated programs, in the optimised and in the fully checked build: each run must end Ok or with a catchable error, never panic/abort/hang/touch freed memory.",
+  note=TRUST + " VM-wide progress (every opcode on every operand kind) is NOT proved for vm.rs; it rests on the inventory plus the exhaustive sweeps (partial). Memory safety of unsafe blocks is outside any model. Known findings F4-F7 (and F13/F26 panics under C08) are listed with replays.",
+  technique="Lean 4 proof (no-fault theorems of the data-level models, bytecode verifier soundness, decide over the regenerated panic-site inventory) + exhaustive native/operator sweeps in checked and optimised builds",
+  ref="DESIGN.md section 5 C02"),
  "C04": dict(
   text="Lean 4 theorem verify_sound: if the Lean bytecode verifier (abstract interpretation over operand-stack height and handler stack) accepts a function, then on EVERY execution of the frame machine the pc is an instruction boundary inside the code, the height and handler stack at each instruction are the statically assigned ones and every local, constant, upvalue and pop is in range; proved from the post-fixpoint check alone (the worklist is untrusted); jump-limit lemmas. The verifier runs on the REAL compiler's output for every function of every program (translation validation); on real runs every executed instruction's height and handler depth is compared with the annotation; byte-exact limit sweeps.",
   note=TRUST + " The frame machine abstracts vm.rs per frame (calls atomic, values nondeterministic, the exception-in-flight flag not modelled); its opcode effects are tied to vm.rs by the per-instruction comparison only. Known findings F13, F23, F27 are programs the verifier rightly rejects.",
